@@ -287,7 +287,7 @@ def _run_once(binary, lines, timeout, env):
     e = dict(ASAN_ENV)
     if env:
         e.update(env)
-    rc, out, err = sh([binary], timeout=timeout, input=data, env=e)
+    rc, out, err = sh(binary if isinstance(binary, list) else [binary], timeout=timeout, input=data, env=e)
     outl = out.split("\n")
     if outl and outl[-1] == "":
         outl.pop()
